@@ -272,9 +272,35 @@ def st_pass_case(draw, tier):
 
 
 @st.composite
+def st_multi_case(draw, tier):
+    """two perturbation orders in one expression: a product of two
+    second-order amplitudes (4th order) next to a low-order term without any
+    intermediate; multi-term intermediates are factored in several passes"""
+    so = [("t2", "T", "v", "o", 0), ("t2", "T", "v", "o", 0),
+          ("t2", "T", "vv", "oo", 0)]
+    objs = [draw(st.sampled_from(so)), draw(st.sampled_from(so[:2]))]
+    if draw(st.booleans()):
+        objs.append(draw(st.sampled_from(PLAIN[6:])))
+    t1_, _ = draw(st_term(0, tier, fixed_objs=objs))
+    extra = draw(st.sampled_from([
+        [PLAIN[0], PLAIN[6], PLAIN[6]], [PLAIN[0], PLAIN[0]],
+        [PLAIN[1], PLAIN[6], PLAIN[6]], [PLAIN[0], PLAIN[7], PLAIN[6],
+                                         PLAIN[6]]]))
+    t2_, _ = draw(st_term(0, tier, fixed_objs=extra))
+    sel = draw(st.sampled_from([["t1_2"], ["t2_2"], ["t1_2", "t2_2"],
+                                ["t2_1", "t1_2", "t2_2"], ["t_amplitude"]]))
+    return {"terms": [t1_, t2_], "targets": [], "req": "factor_expanded",
+            "itmds": sel, "max_order": draw(st.sampled_from([None, None, 2])),
+            "size": draw(st.sampled_from([[2, 2], [3, 2], [2, 3]])),
+            "mseed": draw(st.integers(0, 2**31))}
+
+
+@st.composite
 def st_case(draw, tier):
     if draw(st.integers(0, 4)) == 0:
         return draw(st_num_case())
+    if draw(st.integers(0, 6)) == 0:
+        return draw(st_multi_case(tier))
     if draw(st.integers(0, 5)) == 0:
         return draw(st_pass_case(tier))
     if draw(st.integers(0, 4)) == 0:
